@@ -246,10 +246,12 @@ where
                                     return Ok(Some(right));
                                 }
                             }
-                            t => Err(format!("Association created with non-symbol type {:?} on pair left.", t))?,
+                            // a pair keyed by something else is not an association
+                            _ => {}
                         }
                     }
-                    t => Err(format!("Association created with non-pair type {:?}.", t))?,
+                    // end_list places every item in the table; unkeyed items are skipped
+                    _ => {}
                 },
             }
             
